@@ -23,11 +23,47 @@ fn boundary_values() -> Vec<i64> {
         let q = 1i64 << k;
         v.extend([q - 1, q, q + 1, -(q - 1), -q, -(q + 1)]);
     }
+    // every leading digit at every magnitude (d * 10^e), with neighbours and with a small or a
+    // nine-digit tail: decimal printing in chunks is wrong exactly at such round numbers
+    let mut p: i128 = 1;
+    for _e in 0..19 {
+        for d in 1..10i128 {
+            for tail in [0i128, 1, -1, 42, 999_999_999, 1_000_000_000, 123_456_789_012] {
+                for sign in [1i128, -1] {
+                    let x = sign * (d * p + tail);
+                    if x >= i64::MIN as i128 && x <= i64::MAX as i128 {
+                        v.push(x as i64);
+                    }
+                }
+            }
+        }
+        p *= 10;
+    }
+    v.sort();
+    v.dedup();
     v
 }
 
+/// a sum of up to three terms d * 10^e (zeros in the middle of the decimal form)
+fn decimal_structured(c: &mut Chooser) -> i64 {
+    let mut x: i128 = 0;
+    for _ in 0..1 + c.choose(3) {
+        let d = if c.boolean() { 1 + c.choose(9) as i128 } else { c.choose(1000) as i128 };
+        let e = c.choose(19) as u32;
+        x += d * 10i128.pow(e);
+    }
+    if c.boolean() {
+        x = -x;
+    }
+    x.clamp(i64::MIN as i128, i64::MAX as i128) as i64
+}
+
 fn value(c: &mut Chooser, bounds: &[i64]) -> i64 {
-    if c.prob(150) { bounds[c.choose(bounds.len())] } else { c.raw_u64() as i64 }
+    match c.weighted(&[45, 25, 30]) {
+        0 => bounds[c.choose(bounds.len())],
+        1 => decimal_structured(c),
+        _ => c.raw_u64() as i64,
+    }
 }
 
 /// program: print every parameter in order, return parameter `ret` (or a literal)
@@ -252,7 +288,7 @@ fn a64_args_case(bytes: &[u8], bounds: &[i64]) -> CaseResult {
 pub fn check(ctx: &Ctx) -> i32 {
     let start = Instant::now();
     let mut ev = Evidence::default();
-    ev.rule = "printing: io.c of the working tree linked with a tiny C main; batches of up to 40 values drawn from all boundaries (0, +-1, +-9, +-10, powers of ten +-1, powers of two +-1, MIN, MAX) and random 64-bit values; oracle: Rust's decimal formatting (+ newline for the line variant). arguments/status: programs `def main(a0..ak){ println_i64(a0); ...; ai }` for k = 0..5 compiled through the real pipeline and generate_c_driver, run natively with boundary/random decimal arguments; oracle: each parameter printed unchanged and in order, status = result mod 256; with one argument too few/too many: a message, non-zero status and no program output. AArch64: the same programs for k = 0..7 on the emulator with the arguments in X1..X7. Non-trivial: |value| >= 2^31 or k >= 3; distinct by hash of the values.".into();
+    ev.rule = "printing: io.c of the working tree linked with a tiny C main; batches of up to 40 values drawn from all boundaries (0, +-1, +-9, +-10, powers of ten +-1, powers of two +-1, MIN, MAX, every d*10^e for d = 1..9 with neighbours and with small / nine-digit / twelve-digit tails), sums of up to three terms d*10^e (zeros inside the decimal form) and random 64-bit values; oracle: Rust's decimal formatting (+ newline for the line variant). arguments/status: programs `def main(a0..ak){ println_i64(a0); ...; ai }` for k = 0..5 compiled through the real pipeline and generate_c_driver, run natively with boundary/random decimal arguments; oracle: each parameter printed unchanged and in order, status = result mod 256; with one argument too few/too many: a message, non-zero status and no program output. AArch64: the same programs for k = 0..7 on the emulator with the arguments in X1..X7. Non-trivial: |value| >= 2^31 or k >= 3; distinct by hash of the values.".into();
     ev.assumptions = vec!["gcc and GNU as of the sandbox; AArch64 entry on the emulator only".into()];
     let bounds = boundary_values();
     let ex = Exes { tc: Toolchain::new(ctx.scratch.clone()), printer: Mutex::new(None), progs: Mutex::new(HashMap::new()) };
